@@ -54,36 +54,31 @@ ENGINE_CFGS = [{}, {'smooth_line_predictions': False}, {'line_end_weight': 0.5},
 
 
 def engine(cfg=0):
-    if cfg:
-        import copy
-        e = copy.copy(engine())
-        for k, v in ENGINE_CFGS[cfg].items():
-            setattr(e, k, v)
-        return e
-    if 'e' not in _ENG:
+    """a LayoutEngine with the constructor options ENGINE_CFGS[cfg]: the real constructors (LayoutEngine -> TorchParseNet) run, only the loading
+    of the network file is replaced; if they cannot be driven that way, the attributes the constructor sets are set by hand"""
+    if cfg not in _ENG:
         from pero_ocr.layout_engines.cnn_layout_engine import LayoutEngine
+        opts = ENGINE_CFGS[cfg]
         try:
-            # the real constructors (LayoutEngine -> TorchParseNet) with only the loading of the network file replaced
             import contextlib
             import io
             import unittest.mock
             import torch
             from pero_ocr.layout_engines import torch_parsenet
             with unittest.mock.patch.object(torch_parsenet.torch.jit, 'load', lambda *a, **kw: None), contextlib.redirect_stdout(io.StringIO()):
-                _ENG['e'] = LayoutEngine('stub-model', torch.device('cpu'))
-            return _ENG['e']
-        except Exception:  # noqa  (fall back to setting the constructor's attributes by hand)
-            pass
-        e = object.__new__(LayoutEngine)
-        d = {k: v.default for k, v in inspect.signature(LayoutEngine.__init__).parameters.items() if v.default is not inspect.Parameter.empty}
-        e.line_end_weight = d['line_end_weight']
-        e.vertical_line_connection_range = d['vertical_line_connection_range']
-        e.smooth_line_predictions = d['smooth_line_predictions']
-        e.line_detection_threshold = d['detection_threshold']
-        e.adaptive_downsample = d['adaptive_downsample']
-        e.paragraph_line_threshold = d['paragraph_line_threshold']
-        _ENG['e'] = e
-    return _ENG['e']
+                _ENG[cfg] = LayoutEngine('stub-model', torch.device('cpu'), **opts)
+        except Exception:  # noqa
+            e = object.__new__(LayoutEngine)
+            d = {k: v.default for k, v in inspect.signature(LayoutEngine.__init__).parameters.items() if v.default is not inspect.Parameter.empty}
+            d.update(opts)
+            e.line_end_weight = d['line_end_weight']
+            e.vertical_line_connection_range = d['vertical_line_connection_range']
+            e.smooth_line_predictions = d['smooth_line_predictions']
+            e.line_detection_threshold = d['detection_threshold']
+            e.adaptive_downsample = d['adaptive_downsample']
+            e.paragraph_line_threshold = d['paragraph_line_threshold']
+            _ENG[cfg] = e
+    return _ENG[cfg]
 
 
 def shards(tier):
@@ -278,7 +273,7 @@ def page_lines(size):
             if int(2.2 * size) + k * int(3.4 * size) + size < PAGE_HW[0]]
 
 
-def adaptive_parsenet(init_ds=4):
+def adaptive_parsenet(init_ds=4, adaptive=True, max_mp=5):
     """the REAL TorchParseNet.get_maps_with_optimal_resolution / get_med_height (adaptive down-sampling, state kept in last_downsample)
     around a renderer that draws the maps of the current page description at whatever resolution is requested"""
     import types
@@ -288,13 +283,13 @@ def adaptive_parsenet(init_ds=4):
         import torch
         from pero_ocr.layout_engines import torch_parsenet
         with unittest.mock.patch.object(torch_parsenet.torch.jit, 'load', lambda *a, **kw: None):
-            pn = TorchParseNet('stub-model', torch.device('cpu'), downsample=init_ds)
+            pn = TorchParseNet('stub-model', torch.device('cpu'), downsample=init_ds, max_mp=max_mp, adaptive_downsample=adaptive)
     except Exception:  # noqa  (fall back to setting the constructor's attributes by hand)
         pn = object.__new__(TorchParseNet)
         d = {k: v.default for k, v in inspect.signature(TorchParseNet.__init__).parameters.items() if v.default is not inspect.Parameter.empty}
-        pn.max_megapixels = d['max_mp']
+        pn.max_megapixels = max_mp
         pn.detection_threshold = d['detection_threshold']
-        pn.adaptive_downsample = d['adaptive_downsample']
+        pn.adaptive_downsample = adaptive
         pn.init_downsample = pn.last_downsample = init_ds
         pn.downsample_line_pixel_adapt_threshold = 100
         pn.min_line_processing_height, pn.max_line_processing_height, pn.optimal_line_processing_height = 9, 15, 12
@@ -320,12 +315,10 @@ def check_adaptive(case, ctx):
     hist = [PRINT_SIZES[i] for i in case['adaptive']]
     rot = case['rot']
     eng = copy.copy(engine())
-    eng.parsenet = adaptive_parsenet()
     cfg = case.get('cfg', 0)
-    if cfg in (1, 2):
-        eng.parsenet.adaptive_downsample = False
+    adaptive, max_mp = cfg not in (1, 2), (0.1 if cfg in (2, 3) else 5)      # 0.1: the 4.3 MP page exceeds the budget, the factor used is sqrt(4.32 / 0.1) = 6.6
+    eng.parsenet = adaptive_parsenet(adaptive=adaptive, max_mp=max_mp)
     if cfg in (2, 3):
-        eng.parsenet.max_megapixels = 0.1          # the 4.3 MP page exceeds the budget: the factor actually used is sqrt(4.32 / 0.1) = 6.6
         ctx.tag('page-exceeds-the-pixel-budget')
     res = None
     for size in hist:
@@ -341,8 +334,8 @@ def check_adaptive(case, ctx):
     ctx.state(('adaptive', tuple(hist), rot, cfg, round(float(getattr(eng.parsenet, 'last_downsample', 0)), 3)))
     p_list, b_list, h_list, t_list = res
     truth = page_lines(hist[-1])
-    desc = (f'pages with print sizes {hist} (ascender px) analysed in turn, rotation {rot}, adaptive={eng.parsenet.adaptive_downsample}, '
-            f'max_mp={eng.parsenet.max_megapixels}; last page lines {truth}')
+    desc = (f'pages with print sizes {hist} (ascender px) analysed in turn, rotation {rot}, adaptive={adaptive}, '
+            f'max_mp={max_mp}; last page lines {truth}')
     K = f'{ID}/adaptive-downsampling'
     if len(b_list) != len(truth):
         ctx.violation('one-line-per-ridge', f'{K}/line-count', f'{desc}: {len(b_list)} lines for {len(truth)} ridges')
